@@ -22,7 +22,16 @@ pub enum Entry {
     PwStrVerify,
     PwNeedsRehash,
     PwFromStringVerify,
+    /// nightly build only: the same parsers / openers with heap and locked containers
+    HeapBoxFromBytes,
+    HeapSecretBoxFromBytes,
+    HeapSealedUnseal,
+    StreamPullLocked,
+    StreamPullHeap,
+    HeapSignedMessage,
 }
+
+pub const NIGHTLY_ENTRIES: &[Entry] = &[Entry::HeapBoxFromBytes, Entry::HeapSecretBoxFromBytes, Entry::HeapSealedUnseal, Entry::StreamPullLocked, Entry::StreamPullHeap, Entry::HeapSignedMessage];
 
 pub const AEAD_ENTRIES: &[Opener] = &[
     Opener::SbOpenEasy,
@@ -54,7 +63,10 @@ impl Entry {
                 Kind::Stream => 17,
                 _ => 16,
             },
-            Entry::SignOpen | Entry::SignVerifyDetached | Entry::SignFinalVerify | Entry::SignedMessageVerify => 64,
+            Entry::SignOpen | Entry::SignVerifyDetached | Entry::SignFinalVerify | Entry::SignedMessageVerify | Entry::HeapSignedMessage => 64,
+            Entry::HeapBoxFromBytes | Entry::HeapSecretBoxFromBytes => 16,
+            Entry::HeapSealedUnseal => 48,
+            Entry::StreamPullLocked | Entry::StreamPullHeap => 17,
             Entry::AuthVerify | Entry::AuthObjVerify => 32,
             Entry::OtaVerify | Entry::OtaObjVerify => 16,
             _ => 0,
@@ -113,7 +125,14 @@ pub fn authentic(entry: Entry, k: &Keys, msg: &[u8], stream_tag: u8) -> Vec<u8> 
                 sodium::stream_push(&mut st, msg, None, stream_tag)
             }
         },
-        Entry::SignOpen | Entry::SignVerifyDetached | Entry::SignedMessageVerify => sodium::sign_combined(msg, &k.sign_sk),
+        Entry::HeapBoxFromBytes => sodium::box_easy(msg, &k.nonce, &k.rpk, &k.ssk).unwrap(),
+        Entry::HeapSecretBoxFromBytes => sodium::secretbox_easy(msg, &k.nonce, &k.key),
+        Entry::HeapSealedUnseal => sodium::box_seal(msg, &k.rpk),
+        Entry::StreamPullLocked | Entry::StreamPullHeap => {
+            let mut st = sodium::stream_init_pull(&k.header, &k.key);
+            sodium::stream_push(&mut st, msg, None, stream_tag)
+        }
+        Entry::SignOpen | Entry::SignVerifyDetached | Entry::SignedMessageVerify | Entry::HeapSignedMessage => sodium::sign_combined(msg, &k.sign_sk),
         Entry::SignFinalVerify => {
             let mut v = sodium::sign_ph_create(&[msg], &k.sign_sk).to_vec();
             v.extend_from_slice(msg);
@@ -238,6 +257,10 @@ fn call(c: &Case) -> Option<bool> {
             let b = dryoc::classic::crypto_pwhash::crypto_pwhash_str_needs_rehash(s, u64::MAX, usize::MAX);
             Some(a.is_ok() && b.is_ok())
         }
+        #[cfg(feature = "nightly")]
+        Entry::HeapBoxFromBytes | Entry::HeapSecretBoxFromBytes | Entry::HeapSealedUnseal | Entry::StreamPullLocked | Entry::StreamPullHeap | Entry::HeapSignedMessage => call_nightly(c, &k),
+        #[cfg(not(feature = "nightly"))]
+        Entry::HeapBoxFromBytes | Entry::HeapSecretBoxFromBytes | Entry::HeapSealedUnseal | Entry::StreamPullLocked | Entry::StreamPullHeap | Entry::HeapSignedMessage => None,
         Entry::PwFromStringVerify => {
             let s = std::str::from_utf8(inp).ok()?;
             let p = dryoc::pwhash::PwHash::<Vec<u8>, Vec<u8>>::from_string(s);
@@ -249,6 +272,61 @@ fn call(c: &Case) -> Option<bool> {
                 }
             }
         }
+    }
+}
+
+#[cfg(feature = "nightly")]
+fn call_nightly(c: &Case, k: &Keys) -> Option<bool> {
+    use dryoc::dryocbox::DryocBox;
+    use dryoc::dryocsecretbox::DryocSecretBox;
+    use dryoc::dryocstream::DryocStream;
+    use dryoc::protected::*;
+    let inp = &c.input.0;
+    match c.entry {
+        Entry::HeapBoxFromBytes => {
+            let r = DryocBox::<HeapByteArray<32>, HeapByteArray<16>, HeapBytes>::from_bytes(inp).and_then(|b| {
+                let pt: Result<LockedBytes, _> = b.decrypt(&k.nonce, &k.spk, &k.rsk);
+                pt
+            });
+            Some(r.is_ok())
+        }
+        Entry::HeapSecretBoxFromBytes => {
+            let r = DryocSecretBox::<HeapByteArray<16>, HeapBytes>::from_bytes(inp).and_then(|b| {
+                let pt: Result<HeapBytes, _> = b.decrypt(&k.nonce, &k.key);
+                pt
+            });
+            Some(r.is_ok())
+        }
+        Entry::HeapSealedUnseal => {
+            let kp: dryoc::keypair::KeyPair<HeapByteArray<32>, HeapByteArray<32>> = dryoc::keypair::KeyPair { public_key: HeapByteArray::from(&k.rpk), secret_key: HeapByteArray::from(&k.rsk) };
+            let r = DryocBox::<HeapByteArray<32>, HeapByteArray<16>, HeapBytes>::from_sealed_bytes(inp).and_then(|b| {
+                let pt: Result<LockedBytes, _> = b.unseal(&kp);
+                pt
+            });
+            Some(r.is_ok())
+        }
+        Entry::StreamPullLocked => {
+            let mut s = DryocStream::init_pull(&k.key, &k.header);
+            let ad = c.ad.as_ref().map(|h| h.0.clone());
+            let r: Result<(LockedBytes, _), _> = s.pull(inp, ad.as_ref());
+            Some(r.is_ok())
+        }
+        Entry::StreamPullHeap => {
+            let mut s = DryocStream::init_pull(&k.key, &k.header);
+            let hb = {
+                let mut h = HeapBytes::default();
+                h.resize(inp.len(), 0);
+                h.as_mut_slice().copy_from_slice(inp);
+                h
+            };
+            let r: Result<(HeapBytes, _), _> = s.pull(&hb, None);
+            Some(r.is_ok())
+        }
+        Entry::HeapSignedMessage => {
+            let r = dryoc::sign::SignedMessage::<HeapByteArray<64>, HeapBytes>::from_bytes(inp).and_then(|m| m.verify(&k.sign_pk));
+            Some(r.is_ok())
+        }
+        _ => None,
     }
 }
 
@@ -377,6 +455,44 @@ pub fn run(ctx: &mut Ctx) -> Result<(), Violation> {
     ];
     let fills = ctx.tier.pick(6u64, 24);
     let n_len = 200usize;
+    let nightly_part = cfg!(feature = "nightly") && std::env::var("VERIF_PART").as_deref() == Ok("nightly");
+    if nightly_part {
+        // heap / locked containers: same enumeration over the nightly-only entries, then done
+        let mut items: Vec<(Entry, usize)> = vec![];
+        for e in NIGHTLY_ENTRIES {
+            for len in 0..=n_len {
+                items.push((*e, len));
+            }
+        }
+        let seed = ctx.seed;
+        ctx.par_each(&items, |_, &(entry, len), ev| {
+            for fi in 0..fills.min(4) {
+                let keyseed = seed ^ (fi << 32) ^ 0x5a5a;
+                let k = keys(keyseed);
+                let mut f = Fill::new(seed, &format!("C04n:{}:{len}:{fi}", entry.name()));
+                for (class, input) in class_inputs(entry, len, &k, &mut f) {
+                    let c = Case { entry, keyseed, input: Hex(input.clone()), class: class.clone(), ad: None };
+                    let r = exec(&c).map_err(|m| Violation::new("C04", "untrusted-input", m, serde_json::to_value(&c).unwrap()))?;
+                    if r.is_none() {
+                        continue;
+                    }
+                    ev.eval(1);
+                    ev.class(&format!("{}:{}", entry.name(), class));
+                    if class == "valid" && r != Some(true) {
+                        return Err(Violation::new("C04", "harness", format!("harness: authentic input for {} not accepted", entry.name()), serde_json::to_value(&c).unwrap()));
+                    }
+                    if len < entry.overhead() || class.starts_with("valid-") {
+                        ev.nontrivial(fnv64(&[entry.name().as_bytes(), &len.to_le_bytes(), class.as_bytes(), &fi.to_le_bytes()]));
+                    }
+                    if len == 3 {
+                        ev.sample(&format!("{}-{}", entry.name(), class), || json!({"entry": entry.name(), "len": len, "class": class}));
+                    }
+                }
+            }
+            Ok(())
+        })?;
+        return Ok(());
+    }
     let mut entries: Vec<Entry> = AEAD_ENTRIES.iter().map(|o| Entry::Aead(*o)).collect();
     entries.extend([
         Entry::SignOpen, Entry::SignVerifyDetached, Entry::SignFinalVerify, Entry::SignedMessageVerify, Entry::AuthVerify, Entry::AuthObjVerify,
